@@ -37,6 +37,22 @@ TEXT = {
             "random feasible perturbations",
             "Runtime monitoring over ~25k rows per quick run incl. exhaustive set partitions of <=5 features.",
             "Reference minimiser by bisection (1e-16 bracket); tolerances 1e-12 (group lasso), 1e-10 objective / 1e-8 argmin."),
+    "C04": ("post-fit contract through the public API on every fit of generated valid configurations of the 18 "
+            "estimators (labels_, predict_proba, predict, score vs reference GEMINI, n_iter_, optimiser_, Adam step counter, "
+            "fit_predict; Kauri labels/tree); any exception is a violation keyed by estimator/exception/frame",
+            "Runtime monitoring of ~640 (quick) / 12k (thorough) fits drawn from the documented parameter domains, "
+            "incl. n_clusters=1, n_clusters=n, batch sizes 1..n+3, list / int / float inputs.",
+            "Documented domains are hand-written in gcverif/gen.py; score is compared with the naive reference for n<=14."),
+    "C10": ("invariants at hooks: producer side (every batch yielded by _batchify, decoded through unique-id coding) and "
+            "consumer side (rows given to _infer and affinity given to GEMINI.evaluate at each optimiser step), step / "
+            "epoch counters, path validation blocks (compute_val_score rebound)",
+            "Runtime monitoring of fits and paths of all batched and nonparametric families, plain and mlcl-decorated.",
+            "Rows of generated X are pairwise distinct (ambiguous kernels rows of KernelRIM are skipped and counted)."),
+    "C14": ("reference-model monitor (union-find validator) over exhaustive small and random large constraint sets; "
+            "invariant at a hook: gradient received by the model's own _compute_grads minus gradient returned by "
+            "GEMINI.evaluate equals the documented pairwise term on exactly the linked rows of the batch",
+            "Runtime monitoring: ~11k validations + ~1k decorated batches per quick run.",
+            "Acceptance rule taken from the property text; 3-column pair arrays are not generated."),
 }
 
 TECH_DEFAULT = "runtime monitoring: contracts/invariants at hooked call sites over generated workloads"
